@@ -143,7 +143,12 @@ class FakeOS:
 
     # -- identity
     def getpid(self):
-        return ctx()[2].pid
+        s, t, p = ctx()
+        if getattr(t, "fork_zero", False):
+            # fork re-entry: code that the parent executed *before* fork() is being re-executed by the child's
+            # thread; until fork() returns 0 it must see what the parent saw
+            return p.ppid
+        return p.pid
 
     def getppid(self):
         return ctx()[2].ppid
